@@ -74,6 +74,43 @@ theorem kwOk_eq_spec (c : KwConfig) (h : KwPlain c) (kws : List Str) :
   · simp only [hs, Bool.false_eq_true, if_false]
     exact keywordsAccepted_iff _ (Allowed c) (mem_allowed c h) kws
 
+/-- **"stable" is about `~ARCH` only, and there an empty entry means `~ARCH`**: whatever else `ACCEPT_KEYWORDS` accepts
+(foreign stable or testing keywords, `*`, `~*`), as long as `~ARCH` is not among the default keys a package that carries `~ARCH`
+and is matched by an entry without keywords passes the keywords filter. -/
+theorem empty_entry_means_testing_arch (c : KwConfig) (h : KwPlain c) (kws : List Str)
+    (hst : ('~' :: c.arch) ∉ defaultKeys c.arch c.accept)
+    (e : KwEntry) (he : e ∈ c.entries) (hhit : e.hit = true) (hemp : e.tokens = [])
+    (hk : ('~' :: c.arch) ∈ kws) : kwOk c kws = true := by
+  rw [kwOk_eq_spec c h]
+  exact Or.inr (Or.inr (Or.inr ⟨_, hk, Or.inr ⟨e, he, hhit, Or.inr ⟨hemp, hst, rfl⟩⟩⟩))
+
+/-- ... and only there: when `~ARCH` is already accepted the accepted set is the default keys plus the tokens written in the
+matching entries; an entry without keywords contributes nothing. -/
+theorem empty_entry_means_nothing_when_unstable (c : KwConfig) (hun : ('~' :: c.arch) ∈ defaultKeys c.arch c.accept) (k : Str) :
+    Allowed c k ↔ (k ∈ defaultKeys c.arch c.accept ∨ ∃ e ∈ c.entries, e.hit = true ∧ k ∈ e.tokens) := by
+  unfold Allowed Stable
+  constructor
+  · rintro (h1 | ⟨e, he, hh, (h2 | ⟨_, hns, _⟩)⟩)
+    · exact Or.inl h1
+    · exact Or.inr ⟨e, he, hh, h2⟩
+    · exact absurd hun hns
+  · rintro (h1 | ⟨e, he, hh, h2⟩)
+    · exact Or.inl h1
+    · exact Or.inr ⟨e, he, hh, Or.inl h2⟩
+
+/-- hypotheses satisfiable, and the boundary itself: ACCEPT_KEYWORDS="amd64 ~x86" is a stable amd64 system (a bare entry lets a
+`~amd64` package in, and nothing else), ACCEPT_KEYWORDS="amd64 ~amd64 ~x86" is not (the bare entry is void) -/
+example :
+    let e : KwEntry := ⟨.atom, true, true, []⟩
+    let stableForeign : KwConfig := ⟨"amd64".toList, ["amd64".toList, "~x86".toList], [e], false⟩
+    let unstable : KwConfig := ⟨"amd64".toList, ["amd64".toList, "~amd64".toList, "~x86".toList], [], false⟩
+    ('~' :: stableForeign.arch) ∉ defaultKeys stableForeign.arch stableForeign.accept ∧
+    kwOk stableForeign ["~amd64".toList] = true ∧ kwOk stableForeign ["~arm64".toList] = false ∧
+    kwOk { stableForeign with entries := [] } ["~amd64".toList] = false ∧
+    ('~' :: unstable.arch) ∈ defaultKeys unstable.arch unstable.accept ∧
+    kwOk { unstable with entries := [e] } ["~arm64".toList] = false := by
+  decide
+
 /-- **license acceptance is pointwise**: for a license of the alternative under test, being in the set built by
 `incremental_expansion_license` (with `@group`, `-@group`, `*`, `-*`) is decided by the last token that concerns it. -/
 theorem license_accept_pointwise (groups : Str → List Str) (andPair : List Str) (l : Str) (hl : l ∈ andPair)
